@@ -131,7 +131,7 @@ def gen_item_C09(rng, idx, tier):
                           '.hdf', '.fts'])
         kind = rng.choice(['write', 'read-missing', 'read-fits', 'read-hdf5', 'read-junk'])
         return {'mode': 'identify', 'name': base + ext, 'kind': kind}
-    case = gen.gen_compute_case(rng, maxpix=40 if tier == 'quick' else 80)
+    case = gen.gen_compute_case(rng, maxpix=40 if tier == 'quick' else 80, force={'big': True})
     if case['dtype'] in ('uint32',):
         case['dtype'] = 'int32'
     if rng.random() < 0.3:
@@ -320,7 +320,8 @@ def eval_C09(item):
     o2 = impl.observe(d2, case)
     mobs = parse_block(drv.ask('reload'))
     res['corr'] += session.diff_obs(o2, mobs, ['par', 'kids', 'own', 'lvl', 'anc', 'desc', 'npix', 'npixsub', 'tiown', 'tisub', 'vmin', 'vmax', 'h', 'peak', 'peaksub'],
-                                    ['trunk', 'iter', 'lmap', 'newick'])
+                                    # the Newick text prints heights through a float: not exact beyond 2**53
+                                    ['trunk', 'iter', 'lmap'] + ([] if case.get('kind') == 'bigint' else ['newick']))
     # predicate: same data, label map, params, WCS, dimensionality, ids, relations, child order, accessors
     if not np.array_equal(np.asarray(d.data), np.asarray(d2.data), equal_nan=(np.asarray(d.data).dtype.kind == 'f')):
         res['pred'].append('data differ after the round trip')
@@ -329,7 +330,10 @@ def eval_C09(item):
     if o1['lmap'] != o2['lmap']:
         res['pred'].append('label map differs after the round trip')
     for k in ('min_value', 'min_delta', 'min_npix'):
-        if k not in d2.params or float(d2.params[k]) != float(d.params[k]):
+        def _exact(v_):
+            from fractions import Fraction
+            return Fraction(v_.item() if hasattr(v_, 'item') else v_)
+        if k not in d2.params or _exact(d2.params[k]) != _exact(d.params[k]):
             # known finding K7: parameters travel in FITS header cards, and astropy formats a float card value
             # into at most 20 characters: a float64 that needs 16-17 significant digits AND an exponent loses
             # its last digit(s).  Signature: FITS, a float parameter, and the loaded value is exactly what
